@@ -179,8 +179,46 @@ func goTool() string {
 	return "/opt/veriftools/go1.26.8/bin/go"
 }
 
+// prepareTree copies /repo's working tree (without .git) into the scratch
+// directory, inserts hook points before lock acquisitions that have none
+// (cmd/instrument) and writes a module file that points the harness at the copy.
+var modFile string
+
+func prepareTree(work string) error {
+	tree := filepath.Join(work, "tree")
+	if err := os.MkdirAll(tree, 0o755); err != nil {
+		return err
+	}
+	repo := "/repo"
+	if v := os.Getenv("VERIF_REPO"); v != "" {
+		repo = v
+	}
+	cp := exec.Command("sh", "-c", fmt.Sprintf("cd %s && tar --exclude=.git -cf - . | tar -xf - -C %s", repo, tree))
+	if b, err := cp.CombinedOutput(); err != nil {
+		return fmt.Errorf("copying %s: %v\n%s", repo, err, b)
+	}
+	ins := exec.Command(filepath.Join(verifDir, "bin", "instrument"), tree)
+	if b, err := ins.CombinedOutput(); err != nil {
+		return fmt.Errorf("instrumenting the copy of %s failed (does it still parse?): %v\n%s", repo, err, b)
+	}
+	mod, err := os.ReadFile(filepath.Join(verifDir, "go.mod"))
+	if err != nil {
+		return err
+	}
+	m := strings.Replace(string(mod), "=> /repo", "=> "+tree, 1)
+	modFile = filepath.Join(work, "go.mod")
+	if err := os.WriteFile(modFile, []byte(m), 0o644); err != nil {
+		return err
+	}
+	sum, _ := os.ReadFile(filepath.Join(verifDir, "go.sum"))
+	return os.WriteFile(filepath.Join(work, "go.sum"), sum, 0o644)
+}
+
 func build(pkg, out string, race bool) error {
 	args := []string{"test", "-tags", "verif", "-vet=off", "-c", "-o", out}
+	if modFile != "" {
+		args = append(args, "-modfile="+modFile)
+	}
 	if race {
 		args = append(args, "-race")
 	}
@@ -302,6 +340,11 @@ func check(prop, tier string) int {
 	_ = os.MkdirAll(filepath.Join(verifDir, "evidence"), 0o755)
 	rc.bin = filepath.Join(rc.work, "engine.test")
 	fmt.Printf("verifctl: property %s tier %s VERIF_SEED=%d\n", prop, tier, rc.seed)
+	if err := prepareTree(rc.work); err != nil {
+		fmt.Fprintln(os.Stderr, err)
+		os.RemoveAll(rc.work)
+		os.Exit(2)
+	}
 	if err := build(cfg.Pkg, rc.bin, cfg.Race); err != nil {
 		fmt.Fprintln(os.Stderr, err)
 		os.RemoveAll(rc.work)
@@ -758,6 +801,10 @@ func replayCmd(path string) int {
 	_ = os.MkdirAll(rc.work, 0o755)
 	defer os.RemoveAll(rc.work)
 	rc.bin = filepath.Join(rc.work, "engine.test")
+	if err := prepareTree(rc.work); err != nil {
+		fmt.Fprintln(os.Stderr, err)
+		return 2
+	}
 	if err := build(cfg.Pkg, rc.bin, cfg.Race); err != nil {
 		fmt.Fprintln(os.Stderr, err)
 		return 2
@@ -864,6 +911,10 @@ func selftest() int {
 	_ = os.MkdirAll(work, 0o755)
 	defer os.RemoveAll(work)
 	bin := filepath.Join(work, "engine.test")
+	if err := prepareTree(work); err != nil {
+		fmt.Fprintln(os.Stderr, err)
+		return 2
+	}
 	if err := build("./sim", bin, false); err != nil {
 		fmt.Fprintln(os.Stderr, err)
 		return 2
